@@ -122,7 +122,8 @@ def _walk(p):
 
 
 def gen_case(r, kind):
-    """(text, [docs])"""
+    """(text, [docs]); gen_case.lenient tells whether the text is outside the RFC grammar"""
+    gen_case.lenient = False
     names = r.sample(["a", "b", "c", "k", "v", "é", "0", "a b", "'", "\\", "and"], r.randint(2, 4))
     if kind == "std":
         if r.random() < 0.5:
@@ -131,7 +132,16 @@ def gen_case(r, kind):
         else:
             fg = gen.FilterGen(r, names, max_depth=r.randint(1, 4))
             doc = gen.filter_doc(r, names, fg.strings + fg.witnesses)
-            ast = ["q", "$", [[r.choice(["child", "desc"]), [["filter", fg.logical()]]]]]
+            e = fg.logical()
+            gen_case.lenient = False
+            if r.random() < 0.2:
+                gen_case.lenient = True  # not RFC: the library may legitimately refuse some of these
+                # the library also accepts comparisons whose operands are parenthesised expressions
+                other = ["pexpr", fg.logical()] if r.random() < 0.4 else ["lit", r.choice([True, False, 1, None])]
+                e = ["cmp", r.choice(gen.CMP_OPS), ["pexpr", e], other] if r.random() < 0.7 else ["cmp", r.choice(gen.CMP_OPS), other, ["pexpr", e]]
+                if r.random() < 0.3:
+                    e = ["and", ["not", e], fg.logical()]
+            ast = ["q", "$", [[r.choice(["child", "desc"]), [["filter", e]]]]]
             doc = gen.filter_doc(r, names, fg.strings + fg.witnesses)
         return Renderer(r, blanks=r.choice([0, 0.3])).top(ast), [doc]
     fg = gen.ExtFilterGen(r, names, max_depth=r.randint(1, 3))
@@ -159,7 +169,7 @@ def run(spec, ctx):
         for e in ("!(%s)" % B, "!(%s && %s)" % (A, C), "(%s || %s) && %s" % (A, B, C), "%s || %s && %s" % (A, B, C), "!(%s || %s)" % (A, C), "!%s && %s" % (A, C),
                   "!(!(%s))" % B, "!(@.a < 2) || !(@.b >= 'x')", "(%s && %s) || (%s && %s)" % (A, B, C, B), "!(%s) == false" % "@.a" if False else "!(@.a == false)",
                   "!(@.a in [1, 2])", "!(@.a contains 'x')", "!(@.a =~ /x/)", "!(@.a <> 1)", "!(# == 0)", "!(_.k == @.k)", "(!@.a) || @.b", "!(@.a == undefined)",
-                  "!(1 == @.a)", "!('a' != @.a)", "!(length(@.a) > 1)", "!match(@.a, 'x')", "!(count(@.*) == 1 && @.a)", "@.a && !(@.b == 1 || @.c) && @.a"):
+                  "!(1 == @.a)", "!('a' != @.a)", "(@.a == 1) == true", "!(@.a == 1) == true", "(@.a == 1) == (@.b == 1)", "(@.a < 2) in [true]", "@.a == (1 == true)", "(@.a && @.b) == true", "(!@.a) == false", "((@.a == 1) == true) == true", "(@.a in [1, 2]) != (@.b in [1])", "!(length(@.a) > 1)", "!match(@.a, 'x')", "!(count(@.*) == 1 && @.a)", "@.a && !(@.b == 1 || @.c) && @.a"):
             for seg in ("$[?%s]", "$..[?%s]", "$[?%s, 0]", "$.x[?%s]", "^[?%s]"):
                 texts.append(seg % e)
         for s in ("a'b", 'a"b', "a\\b", "a\\", "\\", "'", '"', "a\nb", "\t", "\u0000", "\u001f", "é", "\U0001f600", "\\n", "a\\'b", "\\\\", "/", "a/b", " ", ""):
@@ -193,7 +203,7 @@ def run(spec, ctx):
             check_text(ctx, text, docs + POOL[:2], "fuzz", must_compile=False)
         else:
             text, docs = gen_case(r, kind)
-            check_text(ctx, text, docs + POOL[:1], kind, must_compile=True)
+            check_text(ctx, text, docs + POOL[:1], kind, must_compile=not gen_case.lenient)
 
 
 def finalize(m, tier):
